@@ -155,11 +155,17 @@ class AbstractContext:
     @contextmanager
     def predefine_names(self, flow_scope, dct):
         predefined = self.predefined_names
+        # The same flow scope can be entered again while it is active (an
+        # augmented assignment in a loop): restore instead of deleting twice.
+        previous = predefined.get(flow_scope)
         predefined[flow_scope] = dct
         try:
             yield
         finally:
-            del predefined[flow_scope]
+            if previous is None:
+                predefined.pop(flow_scope, None)
+            else:
+                predefined[flow_scope] = previous
 
 
 class ValueContext(AbstractContext):
